@@ -983,6 +983,12 @@ func (c *Context) Log10(d, x *Decimal) (Condition, error) {
 		return 0, fmt.Errorf("ln: %w", err)
 	}
 	nc.Precision = c.Precision
+	// The logarithm was computed in BaseContext's exponent range; the
+	// result is rounded into the caller's, and the caller's traps are
+	// applied to the conditions it raises.
+	nc.MaxExponent = c.MaxExponent
+	nc.MinExponent = c.MinExponent
+	nc.Traps = 0
 
 	qr, err := nc.Mul(d, &z, decimalInvLn10.get(c.Precision+2))
 	if err != nil {
